@@ -1,8 +1,8 @@
 package harness
 
 import (
-	"math"
 	"fmt"
+	"math"
 	"reflect"
 	"sort"
 
@@ -37,8 +37,8 @@ type C13Case struct {
 }
 
 type TypedSrc struct {
-	Lists   bool     `json:"lists,omitempty"` // element type List (else Object)
-	Map     bool     `json:"map,omitempty"`   // map[string]T (else []T)
+	Lists   bool     `json:"lists,omitempty"`  // element type List (else Object)
+	Map     bool     `json:"map,omitempty"`    // map[string]T (else []T)
 	Nested  bool     `json:"nested,omitempty"` // the typed value sits inside a []any / map[string]any
 	Entries []V      `json:"entries"`          // KNil, or a container of the element type
 	Keys    []string `json:"keys,omitempty"`
@@ -831,12 +831,82 @@ func checkResliced(c *C13Case, st *Stats) error {
 		return errf("NativeDict of a container built from a slice and its re-slices is %s, expected %s", v.Show(), wantO.Show())
 	}
 	st.Count("resliced_source")
+	// a source that is refused at first (it holds a value of an unsupported type) and is converted again
+	// after the caller repaired it: the second conversion sees an ordinary supported tree
+	type notSupported struct{ X int }
+	inner := []any{1, notSupported{1}, "z"}
+	srcM := map[string]any{"a": inner, "b": map[string]any{"deep": []any{inner}}, "c": 2}
+	srcL := []any{srcM, inner}
+	for attempt, conv := range []func() any{
+		func() any { return at.NewObjectFrom(srcM) }, func() any { return at.NewListFrom(srcL) },
+		func() any { return at.NewList().Add(srcM) }, func() any { return at.NewObject().Set("k", srcL) }} {
+		if _, panicked := catch(func() { conv() }); !panicked {
+			return nil // accepting the unsupported value is C12's business, nothing to check here
+		}
+		_ = attempt
+	}
+	inner[1] = "repaired"
+	wantInner := VList(VInt(1), VStr("repaired"), VStr("z"))
+	wantM := VObj(Pair{"a", wantInner}, Pair{"b", VObj(Pair{"deep", VList(wantInner)})}, Pair{"c", VInt(2)})
+	var gotM, gotL2 V
+	p, panicked = catch(func() {
+		o := at.NewObjectFrom(srcM)
+		l := at.NewListFrom(srcL)
+		var err error
+		if gotM, err = Snap(o); err != nil {
+			panic(err)
+		}
+		if gotL2, err = Snap(l); err != nil {
+			panic(err)
+		}
+	})
+	if panicked {
+		return errf("a native source that was refused once (it held an unsupported value) is refused again after it was repaired: %v", p)
+	}
+	if !EqVBits(sortedV(gotM), sortedV(wantM)) || !EqVBits(sortedV(gotL2), sortedV(VList(wantM, wantInner))) {
+		return errf("a repaired native source converts to %s / %s, expected %s / %s", gotM.Show(), gotL2.Show(), wantM.Show(), VList(wantM, wantInner).Show())
+	}
+	st.Count("repaired_source")
+	return nil
+}
+
+// checkOneLevelOfInnerLevels: Slice() and Dict() hold exactly what Get returns - also where the host
+// stores an INNER embedding level of a derived structure (Get answers with the registered value then).
+func checkOneLevelOfInnerLevels(st *Stats) error {
+	dl := newDerivedList(2, true, 1, 2).(*DL2)
+	do := newDerivedObject(3, false, "a", 1).(*DO3)
+	hostL := at.NewList("x", dl.DL1, do.DO2, dl.DL1.List, 7)
+	hostO := at.NewObject("l", dl.DL1, "o", do.DO2.DO1, "n", nil)
+	sl := hostL.Slice()
+	for i := range sl {
+		if !ifaceEq(sl[i], hostL.Get(i)) {
+			return errf("Slice()[%d] is %T %p, Get(%d) returns %T %p (the host stores an inner embedding level of a derived structure)", i, sl[i], sl[i], i, hostL.Get(i), hostL.Get(i))
+		}
+	}
+	d := hostO.Dict()
+	for _, k := range sortedKeys(hostO) {
+		if e, ok := d[k]; !ok || !ifaceEq(e, hostO.Get(k)) {
+			return errf("Dict()[%q] is %T %p, Get returns %T %p (the host stores an inner embedding level of a derived structure)", k, e, e, hostO.Get(k), hostO.Get(k))
+		}
+	}
+	var foreign []string
+	normNative(hostL.NativeSlice(), &foreign, "$")
+	normNative(hostO.NativeDict(), &foreign, "$")
+	if len(foreign) > 0 {
+		return errf("native export of a host storing inner embedding levels is not plain data: %v", foreign)
+	}
+	st.Count("inner_levels_stored")
 	return nil
 }
 
 func CheckC13(c *C13Case, st *Stats) error {
 	if c.Tree.K != KList && c.Tree.K != KObject {
 		return nil
+	}
+	if c.Share {
+		if err := checkOneLevelOfInnerLevels(st); err != nil {
+			return err
+		}
 	}
 	if c.Reslice > 0 {
 		if err := checkResliced(c, st); err != nil {
